@@ -272,7 +272,7 @@ def main(tier):
                 break
     for d in [x for x in os.listdir(b) if x.startswith('c20-')]:
         shutil.rmtree(os.path.join(b, d), ignore_errors=True)
-    if (nshape.get('dag-with-shared-dependency', 0) < 50 or nshape.get('cyclic', 0) < 50 or nev < 5000) and not run.violations:
+    if (nshape.get('dag-with-shared-dependency', 0) < 50 or nshape.get('cyclic', 0) < 50 or nev < 5000) and not run.violations and not run.capped:
         raise common.HarnessError('vacuous: %s, %d log events' % (nshape, nev))
     cov = {'evaluations': done, 'distinct_nontrivial': done - nshape.get('dag-tree', 0),
            'rule': 'one evaluation = one real start-up and shutdown of the daemon on a distinct (labelled dependency graph, module list, available .so files) triple; '
